@@ -373,6 +373,36 @@ example : parse 13 (exBody ++ [0, 0, 0, 0, 0, 0, 0, 0]) = .done 2 := by decide +
 -- outside the grammar: an LZF string
 example : parse 13 (exBody.take 12 ++ [1, 97, 0xC3, 1, 1, 0]) = .unsup := by decide +kernel
 
+/-! non-vacuity of `alteration_is_error_gen`: a reader that is `GoodItem ∧ Total` and accepts a file —
+    the modelled grammar with "outside the model" turned into an error (a parser that refuses what
+    it does not know) -/
+def itemT : Rd Item := fun xs => match item xs with
+  | .unsup => .err
+  | r => r
+
+theorem itemT_ok {xs a rest} : itemT xs = .ok a rest ↔ item xs = .ok a rest := by
+  unfold itemT; cases h : item xs <;> simp
+
+theorem itemT_err {xs} (h : item xs = .err) : itemT xs = .err := by
+  unfold itemT; rw [h]
+
+theorem itemT_good : GoodItem itemT where
+  seq := by
+    intro xs a rest h
+    obtain ⟨c, hc, hok, herr⟩ := item_good.seq xs a rest (itemT_ok.mp h)
+    exact ⟨c, hc, fun ys => itemT_ok.mpr (hok ys), fun k hk => itemT_err (herr k hk)⟩
+  consumes := fun xs a rest h => item_good.consumes xs a rest (itemT_ok.mp h)
+  eof := fun xs rest h => item_good.eof xs rest (itemT_ok.mp h)
+
+theorem itemT_total : Total itemT := by
+  intro xs; unfold itemT; cases h : item xs <;> simp
+
+example : parseWith itemT 13 exFile = .done 2 := by decide +kernel
+/-- the general theorem, instantiated: every single-byte alteration of `exFile` before the footer is an ERROR -/
+example (i : Nat) (b : UInt8) (hi : i < exFile.length - 8) (hb : exFile[i]? ≠ some b) :
+    ∃ m, parseWith itemT 13 (exFile.set i b) = .err m :=
+  alteration_is_error_gen itemT itemT_good itemT_total 13 exFile 2 i b (by decide +kernel) (by decide +kernel) hi hb
+
 end Frame
 
 end GunYu.Props.C04
